@@ -42,7 +42,7 @@ func mutators() []mop {
 		{"SetTracingId(nil)", func(f *frame.Frame) { f.SetTracingId(nil) }, 0}, // clearing is legal on every frame: "removed along with the corresponding header flag"
 		{"SetTracingId(id)", func(f *frame.Frame) { u := uuid; f.SetTracingId(&u) }, 1},
 		{"RequestTracingId(true)", func(f *frame.Frame) { f.RequestTracingId(true) }, 2},
-		{"RequestTracingId(false)", func(f *frame.Frame) { f.RequestTracingId(false) }, 2},
+		{"RequestTracingId(false)", func(f *frame.Frame) { f.RequestTracingId(false) }, 0}, // on a response it leaves the id in the body and clears the flag: the id must then not be written
 	}
 }
 
@@ -77,6 +77,7 @@ func (r refState) next(op string, compressible bool) refState {
 		r.tracingRequested = false // the flag is shared: clearing the tracing id clears the flag
 	case "SetTracingId(id)":
 		r.tracingId = true
+		r.tracingRequested = true
 	case "RequestTracingId(true)":
 		r.tracingRequested = true
 	case "RequestTracingId(false)":
@@ -162,10 +163,7 @@ func main() {
 			if fl.Contains(primitive.HeaderFlagWarning) != (n.ref.warnings == 2) || (len(f.Body.Warnings) > 0) != (n.ref.warnings == 2) {
 				bad("warning-flag", "warning flag=%v, warnings=%d, expected present=%v", fl.Contains(primitive.HeaderFlagWarning), len(f.Body.Warnings), n.ref.warnings == 2)
 			}
-			wantTracing := n.ref.tracingId
-			if !isResp {
-				wantTracing = n.ref.tracingRequested
-			}
+			wantTracing := n.ref.tracingRequested // the flag as last set by SetTracingId / RequestTracingId
 			if fl.Contains(primitive.HeaderFlagTracing) != wantTracing {
 				bad("tracing-flag", "tracing flag=%v, expected %v", fl.Contains(primitive.HeaderFlagTracing), wantTracing)
 			}
@@ -182,6 +180,9 @@ func main() {
 			legal := (n.ref.payload != 2 && n.ref.warnings != 2) || (t.v != gen.V2 && t.v != gen.V3)
 			if legal && gen.ValidMsgPublic(t.msg, t.v) {
 				orig := gen.Clone(f).(*frame.Frame)
+				if !fl.Contains(primitive.HeaderFlagTracing) {
+					orig.Body.TracingId = nil // not announced by the header, hence not transmitted
+				}
 				buf := &bytes.Buffer{}
 				if err := lz.EncodeFrame(f, buf); err != nil {
 					bad("encode-error", "frame does not encode: %v", err)
